@@ -83,7 +83,7 @@ pub fn gen_plan(seed: u64, mixed_kinds: bool) -> GatherPlan {
             } else {
                 first.kind.clone()
             };
-            let consts: Vec<(String, String)> = first.consts.iter().map(|(k, _)| (k.clone(), format!("v{}", r.below(4)))).collect();
+            let consts: Vec<(String, String)> = first.consts.iter().map(|(k, _)| (k.clone(), r.pick(&["v0", "v1", "v2", "v3", "v", "v\t", "v\u{1f}0", ""]).to_string())).collect();
             if same.iter().any(|m| m.consts == consts) {
                 continue;
             }
@@ -95,8 +95,8 @@ pub fn gen_plan(seed: u64, mixed_kinds: bool) -> GatherPlan {
             } else {
                 match r.below(3) {
                     0 => vec![],
-                    1 => vec![("k".to_string(), format!("v{}", r.below(4)))],
-                    _ => vec![("k".to_string(), format!("v{}", r.below(4))), ("a".to_string(), "x".to_string())],
+                    1 => vec![("k".to_string(), r.pick(&["v0", "v1", "v2", "v3", "v", "v\t", "v\u{1f}0", ""]).to_string())],
+                    _ => vec![("k".to_string(), r.pick(&["v0", "v1", "v2", "v3", "v", "v\t", "v\u{1f}0", ""]).to_string()), ("a".to_string(), r.pick(&["x", "x\n", ""]).to_string())],
                 }
             };
             let vars = if kind.is_vec() { if r.chance(50) { vec!["l".to_string()] } else { vec!["l".to_string(), "e".to_string()] } } else { vec![] };
@@ -105,7 +105,9 @@ pub fn gen_plan(seed: u64, mixed_kinds: bool) -> GatherPlan {
         let mut spec = spec;
         if spec.kind.is_vec() {
             let nc = r.below(5) as usize;
-            let pool = ["", "a", "b", "ab", "B", "é", "10", "9"];
+            // prefix relations, control characters and separators-to-be: the order of samples must be
+            // the lexicographic order of the value tuples, whatever bytes the values contain
+            let pool = ["", "a", "b", "ab", "B", "é", "10", "9", "a\n", "a\t", "a\u{1f}", "a\u{1f}b", "\u{0}", "a\u{0}", "a b", "a,b", "a\u{ff}"];
             let mut seen = vec![];
             for _ in 0..nc {
                 let vals: Vec<String> = spec.vars.iter().map(|_| r.pick(&pool).to_string()).collect();
@@ -596,8 +598,16 @@ fn execute_c14(plan: &GatherPlan, mode: Mode) -> RunOut {
             }
         }
     }
-    // the text encoder must print each sample's real value
+    // the text encoder must print each sample's real value: read the exposition back with the
+    // independent parser and look every collector's sample up by name, labels and value
     for (k, rep) in reps.iter().enumerate() {
+        if rep.text.starts_with("<encode") {
+            continue;
+        }
+        let parsed = match crate::textparse::parse(&rep.text) {
+            Ok((f, _)) => f,
+            Err(_) => continue, // unparseable mixed families are covered by the payload clause
+        };
         for m in &plan.metrics {
             if m.kind.ptype() == PType::Histogram {
                 continue;
@@ -611,13 +621,12 @@ fn execute_c14(plan: &GatherPlan, mode: Mode) -> RunOut {
                 for (i, n) in m.vars.iter().enumerate() {
                     labels.push((n.clone(), vals[i].clone()));
                 }
-                // find the line with this name and all these labels
-                let found = rep.text.lines().any(|l| {
-                    l.starts_with(&name) && !l.starts_with('#') && labels.iter().all(|(a, b)| l.contains(&format!("{}=\"{}\"", a, b))) && l.split(' ').last().and_then(|x| x.parse::<f64>().ok()) == Some(*v as f64) && (l.as_bytes().get(name.len()) == Some(&b'{') || l.as_bytes().get(name.len()) == Some(&b' '))
+                let found = parsed.iter().filter(|f| f.name.as_deref() == Some(name.as_str())).any(|f| {
+                    f.metrics.iter().any(|pm| labels.iter().all(|l| pm.labels.contains(l)) && pm.counter.or(pm.gauge).or(pm.untyped).or(pm.hist.as_ref().map(|h| h.sum)) == Some(*v as f64))
                 });
-                if !found && !rep.text.starts_with("<encode") {
+                if !found {
                     let name_s = m.name.clone();
-                    out.violations.push(Violation::new("C14/printed-value", format!("C14/printed-value:{}", shape(&name_s)), format!("replica {}: the text exposition has no line {}{:?} with the collector's value {} (collectors under this name: {})", k, name, labels, v, shape(&name_s))));
+                    out.violations.push(Violation::new("C14/printed-value", format!("C14/printed-value:{}", shape(&name_s)), format!("replica {}: the text exposition has no sample {}{:?} with the collector's value {} (collectors under this name: {})", k, name, labels, v, shape(&name_s))));
                 }
             }
         }
